@@ -98,7 +98,7 @@ func runC02(r *core.Run) {
 		if rr.Chance(1, 4) {
 			eol = "\r\n"
 		}
-		t := gen.Junk(rr, &gen.JunkCfg{Separators: true, Long: i%7 == 0, Binary: true}, 1+rr.Intn(12), eol)
+		t := gen.Junk(rr, &gen.JunkCfg{Separators: true, Long: i%7 == 0, Binary: true, MixedEOL: i%3 == 0}, 1+rr.Intn(12), eol)
 		switch rr.Intn(4) {
 		case 0:
 			t = t[:len(t)-len(eol)]
